@@ -11,7 +11,12 @@ func genMergeDict(r *Rng, k int) string {
 	var sb strings.Builder
 	// small name/number pools so that every overlap kind occurs
 	for i := 0; i < r.Intn(4); i++ {
-		fmt.Fprintf(&sb, "ATTRIBUTE A%d %d %s\n", r.Intn(6), 1+r.Intn(6), r.PickS("string", "integer", "octets"))
+		oid := fmt.Sprint(1 + r.Intn(6))
+		if r.Intn(4) == 0 {
+			// dotted numbers: one is a prefix of another, never equal to it
+			oid = r.PickS("5", "5.1", "5.1.1", "5.2", "6.1", "241", "241.1", "241.1.2")
+		}
+		fmt.Fprintf(&sb, "ATTRIBUTE A%d %s %s\n", r.Intn(6), oid, r.PickS("string", "integer", "octets"))
 	}
 	for i := 0; i < r.Intn(3); i++ {
 		fmt.Fprintf(&sb, "VALUE A%d v%d %d\n", r.Intn(6), r.Intn(4), r.Intn(9))
@@ -25,7 +30,11 @@ func genMergeDict(r *Rng, k int) string {
 		}
 		fmt.Fprintf(&sb, "VENDOR %s %d\nBEGIN-VENDOR %s\n", name, num, name)
 		for j := 0; j < r.Intn(3); j++ {
-			fmt.Fprintf(&sb, "ATTRIBUTE %s-X%d %d string\n", name, r.Intn(4), 1+r.Intn(4))
+			oid := fmt.Sprint(1 + r.Intn(4))
+			if r.Intn(4) == 0 {
+				oid = r.PickS("3", "3.1", "3.1.1", "4.1")
+			}
+			fmt.Fprintf(&sb, "ATTRIBUTE %s-X%d %s string\n", name, r.Intn(4), oid)
 		}
 		for j := 0; j < r.Intn(3); j++ {
 			fmt.Fprintf(&sb, "VALUE %s-X%d w%d%d %d\n", name, r.Intn(4), k, j, r.Intn(5))
@@ -43,7 +52,7 @@ func dictSnapshot(d *dictionary.Dictionary) string {
 
 func init() {
 	props["C20"] = func(c *Ctx) {
-		c.Res.Rule = "pairs and left-folded chains (2..4) of well-formed dictionaries drawn from small name/number pools (overlapping and disjoint attributes, values, vendors; same-name/different-number vendors; matched vendors with clashing and non-clashing attributes); each is parsed by the real parser and merged; result or refusal compared with the heap model; deep snapshots of every input before/after every Merge; the first input is merged a second time with another partner and the first result re-checked (capacity aliasing). non-trivial = chain with at least one matched vendor or a conflict"
+		c.Res.Rule = "pairs and left-folded chains (2..4) of well-formed dictionaries drawn from small name/number pools (overlapping and disjoint attributes, values, vendors; dotted attribute numbers where one is a proper prefix of another; same-name/different-number vendors; matched vendors with clashing and non-clashing attributes); each is parsed by the real parser and merged; result or refusal compared with the heap model; deep snapshots of every input before/after every Merge; the first input is merged a second time with another partner and the first result re-checked (capacity aliasing). non-trivial = chain with at least one matched vendor or a conflict"
 		r := c.Rng.Fork()
 		n := c.N(1500, 40000)
 		for i := 0; i < n; i++ {
